@@ -175,9 +175,14 @@ def rule_order_source(ctx, funcs, anchor_params):
         for c in calls_in(f):
             is_sort = (isinstance(c.func, ast.Attribute) and c.func.attr == "sort") or dotted_of(c.func) == "sorted"
             key = next((k.value for k in c.keywords if k.arg == "key"), None)
-            if not is_sort or not isinstance(key, ast.Lambda):
+            if not is_sort or key is None:
                 continue
-            tabs = [x.value.id for x in ast.walk(key.body) if isinstance(x, ast.Subscript) and isinstance(x.value, ast.Name)]
+            if isinstance(key, ast.Lambda):
+                tabs = [x.value.id for x in ast.walk(key.body) if isinstance(x, ast.Subscript) and isinstance(x.value, ast.Name)]
+            elif isinstance(key, ast.Attribute) and key.attr in ("__getitem__", "get") and isinstance(key.value, ast.Name):
+                tabs = [key.value.id]  # key=<table>.__getitem__ / <table>.get
+            else:
+                continue
             for tab in tabs:
                 for a in own_nodes(f.node):
                     if not (isinstance(a, ast.Assign) and any(isinstance(t, ast.Name) and t.id == tab for t in a.targets)):
@@ -393,7 +398,9 @@ def run(ctx):
     ctx.require(len(stacks) == 1, f"_process_node: scope-stack parameter not found ({stacks})")
     pushes = [c for c in calls_in(p) if norm(c.func) == f"{stacks[0]}.append"]
     pops = [c for c in calls_in(p) if norm(c.func) == f"{stacks[0]}.pop"]
-    usage_params = [q for q in p.params if any(isinstance(n, ast.Assign) and isinstance(n.targets[0], ast.Subscript) and norm(n.targets[0].value) == q for n in own_nodes(p.node))]
+    usage_params = [q for q in p.params if any(
+        (isinstance(n, ast.Assign) and isinstance(n.targets[0], ast.Subscript) and norm(n.targets[0].value) == q)
+        or (isinstance(n, ast.Call) and isinstance(n.func, ast.Attribute) and n.func.attr == "setdefault" and norm(n.func.value) == q) for n in own_nodes(p.node))]
     ok = len(pushes) == len(pops) and len(pushes) >= 1  # one push per dispatch branch, or one for a loop both branches feed
     for a in pushes:
         an = cfg.nodes_containing(a)[0]
@@ -405,7 +412,8 @@ def run(ctx):
               "a subgraph is pushed on the scope stack and not popped on some path: captures are attributed to the wrong graphs",
               how="push dominates its pop; no early exit in between")
     # every subgraph gets an entry, even when it captures nothing
-    inits = [n for n in own_nodes(p.node) if isinstance(n, ast.Assign) and isinstance(n.targets[0], ast.Subscript) and norm(n.targets[0].value) in usage_params]
+    inits = [n for n in own_nodes(p.node) if (isinstance(n, ast.Assign) and isinstance(n.targets[0], ast.Subscript) and norm(n.targets[0].value) in usage_params)
+             or (isinstance(n, ast.Call) and isinstance(n.func, ast.Attribute) and n.func.attr == "setdefault" and norm(n.func.value) in usage_params)]
     ctx.check("R2", "every visited subgraph gets a capture set", len(inits) == len(pushes), p, p.node,
               "a subgraph without captures is missing from the result", how="one initialisation per push", nontrivial=False)
     c = repo.func(f"{IU}:_collect_implicit_usages")
@@ -534,8 +542,11 @@ def run(ctx):
               "the frontier test accepts values that are neither inputs nor initializers", how="`<v> not in <inputs> and not <v>.is_initializer()`")
     # original order: the returned node list is sorted by an index table built from enumerate(<graph parameter>)
     rv = rets[0].value if rets else None
-    lst = rv.elts[0].id if isinstance(rv, ast.Tuple) and rv.elts and isinstance(rv.elts[0], ast.Name) else None
+    first = rv.elts[0] if isinstance(rv, ast.Tuple) and rv.elts else None
+    lst = first.id if isinstance(first, ast.Name) else None
     srt = [c for c in calls_in(s) if isinstance(c.func, ast.Attribute) and c.func.attr == "sort" and isinstance(c.func.value, ast.Name) and c.func.value.id == lst]
+    if isinstance(first, ast.Call) and dotted_of(first.func) == "sorted" and first.args:
+        srt = [first]  # `return sorted(<list>, key=…), …`
     idx_ok = False
     for c in srt:
         key = next((k.value for k in c.keywords if k.arg == "key"), None)
